@@ -813,6 +813,148 @@ theorem strncat_spec (m : Mem) (s1 s2 : Nat) (a c : List Byte) (n fuel : Nat) (h
   exact ⟨holds_of_sameOutside (cstr_prefix_holds (r := []) (by simpa using ha)).1 ho (by omega), hh⟩
 
 
+/-! ### strtok / strtok_r HISTORIES (round 3; audit item 4).  A sequence of calls on one
+string — the first with the string, the later ones with NULL, call i with its
+own delimiter string `ds[i]` (contents `Ds[i]`; the sets may change from call
+to call) — returns exactly what the list-level reference automaton
+`tokHistory` (Spec.lean: `takeWhile`/`dropWhile` only) prescribes: the tokens in
+order, each as a pointer into the string, then NULL for ever; the save pointer
+is threaded from call to call as `*saveptr` is.  Nothing outside the string's
+characters is modified (the terminator is not rewritten either), and every
+call succeeds when only the string and the delimiter strings are mapped.
+`strtok` is `strtok_r` on its static pointer (`rfl` below), so the same holds
+for it with the static as the threaded state. -/
+
+/-- the general form of the history theorem (any state of the save pointer) -/
+theorem strtokCalls_history (fuel lo hi : Nat) : ∀ (Ds : List (List Byte)) (ds : List Nat) (m : Mem)
+    (str save : Option Nat) (pos : Nat) (l : List Byte),
+    tokStart str save = some pos → CStr m pos l → lo ≤ pos → pos + l.length + 1 ≤ hi → l.length < fuel →
+    DelimsOk m fuel lo hi ds Ds →
+    ∃ m' sv, strtokCalls m fuel ds str save =
+        some (m', sv, (tokHistory Ds l).map (Option.map (pos + ·))) ∧
+      SameOutside m m' pos l.length := by
+  intro Ds
+  induction Ds with
+  | nil =>
+    intro ds m str save pos l _ _ _ _ _ hD
+    cases ds with
+    | cons _ _ => exact hD.elim
+    | nil =>
+    exact ⟨m, save, by simp [strtokCalls, tokHistory], SameOutside.refl _ _ _⟩
+  | cons D Ds ih =>
+    intro ds m str save pos l hstart hl hlo hhi hfl hD
+    cases ds with
+    | nil => exact hD.elim
+    | cons d ds' =>
+    obtain ⟨⟨hDc, hDf, hDo⟩, hDs⟩ := hD
+    obtain ⟨e1, hq, hr⟩ := span_spec (fun x => decide (x ∈ D)) l
+    have hq' : ∀ y ∈ l.takeWhile (fun x => decide (x ∈ D)), y ∈ D := fun y hy => by simpa using hq y hy
+    cases hdr : l.dropWhile (fun x => decide (x ∈ D)) with
+    | nil =>
+      -- only delimiters left
+      rw [hdr, List.append_nil] at e1
+      have hall : ∀ y ∈ l, y ∈ D := by rw [e1]; exact hq'
+      have hcall := strtok_r_no_token m str save pos d D l fuel hstart hDc hl hall hDf hfl
+      have hnil : CStr m (pos + l.length) [] := by
+        have := cstr_suffix (p := l) (r := []) (by simpa using hl); exact this
+      obtain ⟨m', sv, e, ho⟩ := ih ds' m none (some (pos + l.length)) (pos + l.length) [] rfl hnil (by omega)
+        (by simp; omega) (by simp; omega) hDs
+      refine ⟨m', sv, ?_, ?_⟩
+      · simp only [strtokCalls, hcall, bind, Option.bind, e, tokHistory, tokRef, hdr, pure]
+        simp [List.map_map, Function.comp_def, Option.map_map, Nat.add_assoc]
+      · intro j hj; exact ho j (by simp)
+    | cons x r =>
+      have hxD : x ∉ D := by simpa using hr x r hdr
+      obtain ⟨e2, ht, hr2⟩ := span_spec (fun y => decide (y ∉ D)) (x :: r)
+      have ht' : ∀ y ∈ (x :: r).takeWhile (fun y => decide (y ∉ D)), y ∉ D := fun y hy => by simpa using ht y hy
+      have htne : (x :: r).takeWhile (fun y => decide (y ∉ D)) ≠ [] := by
+        simp [List.takeWhile_cons, hxD]
+      generalize hq0 : l.takeWhile (fun x => decide (x ∈ D)) = q at *
+      generalize ht0 : (x :: r).takeWhile (fun y => decide (y ∉ D)) = t at *
+      rw [hdr] at e1
+      cases hd2 : (x :: r).dropWhile (fun y => decide (y ∉ D)) with
+      | nil =>
+        rw [hd2, List.append_nil] at e2
+        have el : l = q ++ t := by rw [e1, e2]
+        subst el
+        have hcall := strtok_r_last_token m str save pos d D q t fuel hstart hDc hl hq' ht' htne hDf hfl
+        have hnil : CStr m (pos + q.length + t.length) [] := by
+          have := cstr_suffix (p := q ++ t) (r := []) (by simpa using hl)
+          simpa [Nat.add_assoc] using this
+        obtain ⟨m', sv, e, ho⟩ := ih ds' m none (some (pos + q.length + t.length)) (pos + q.length + t.length) []
+          rfl hnil (by omega) (by simp at hhi ⊢; omega) (by simp; omega) hDs
+        refine ⟨m', sv, ?_, ?_⟩
+        · simp only [strtokCalls, hcall, bind, Option.bind, e, tokHistory, tokRef, hdr, hq0, ht0, hd2, pure]
+          simp [List.map_map, Function.comp_def, Option.map_map, Nat.add_assoc]
+        · intro j hj; exact ho j (by simp)
+      | cons dl r3 =>
+        have hdD : dl ∈ D := by simpa using hr2 dl r3 hd2
+        rw [hd2] at e2
+        have el : l = q ++ t ++ dl :: r3 := by rw [e1, e2, List.append_assoc]
+        subst el
+        obtain ⟨m1, hcall, htok, ho1⟩ := strtok_r_token m str save pos d D q t r3 dl fuel hstart hDc hl hq' ht' htne hdD hDf hfl
+        have hrest : CStr m1 (pos + q.length + t.length + 1) r3 := by
+          have := cstr_suffix (p := q ++ t ++ [dl]) (r := r3) (by simpa using hl)
+          have := cstr_of_sameOutside this ho1 (Or.inr (by simp; omega))
+          simpa [Nat.add_assoc] using this
+        simp only [List.length_append, List.length_cons] at hhi hfl
+        obtain ⟨m', sv, e, ho⟩ := ih ds' m1 none (some (pos + q.length + t.length + 1)) (pos + q.length + t.length + 1) r3
+          rfl hrest (by omega) (by omega) (by omega) (hDs.transport ho1 (by omega))
+        refine ⟨m', sv, ?_, ?_⟩
+        · simp only [strtokCalls, hcall, bind, Option.bind, e, tokHistory, tokRef, hdr, hq0, ht0, hd2, pure]
+          simp [List.map_map, Function.comp_def, Option.map_map, Nat.add_assoc]
+        · intro j hj
+          simp only [List.length_append, List.length_cons] at hj
+          rw [ho j (by omega), ho1 j (by omega)]
+
+theorem strtok_r_history (m : Mem) (start fuel : Nat) (l : List Byte) (ds : List Nat) (Ds : List (List Byte))
+    (save : Option Nat) (h : CStr m start l) (hf : l.length < fuel)
+    (hD : DelimsOk m fuel start (start + l.length + 1) ds Ds) :
+    ∃ m' sv, strtokCalls m fuel ds (some start) save =
+        some (m', sv, (tokHistory Ds l).map (Option.map (start + ·))) ∧
+      SameOutside m m' start l.length :=
+  strtokCalls_history fuel start (start + l.length + 1) Ds ds m (some start) save start l rfl h
+    (Nat.le_refl _) (Nat.le_refl _) hf hD
+
+/-- a history that is CONTINUED (all calls with NULL) from a save pointer that rests at `pos` -/
+theorem strtok_r_history_continued (m : Mem) (pos fuel lo hi : Nat) (l : List Byte) (ds : List Nat)
+    (Ds : List (List Byte)) (h : CStr m pos l) (hlo : lo ≤ pos) (hhi : pos + l.length + 1 ≤ hi)
+    (hf : l.length < fuel) (hD : DelimsOk m fuel lo hi ds Ds) :
+    ∃ m' sv, strtokCalls m fuel ds none (some pos) =
+        some (m', sv, (tokHistory Ds l).map (Option.map (pos + ·))) ∧
+      SameOutside m m' pos l.length :=
+  strtokCalls_history fuel lo hi Ds ds m none (some pos) pos l rfl h hlo hhi hf hD
+
+/-- strtok's static is the threaded save pointer: the two functions are the same function -/
+theorem strtok_is_strtok_r : @strtok = @strtok_r := rfl
+
+/-- the reference automaton on "a,,b;c" with the delimiter sets ",", ",", ";", ";": tokens "a", "b;c"
+(the second call still splits at ','), then nothing is left for ';' -/
+example : tokHistory [[44#8], [44#8], [59#8], [59#8]] [97#8, 44#8, 44#8, 98#8, 59#8, 99#8] =
+    [some 0, some 3, none, none] := by decide
+/-- ... and with the set changed to ";" for the second call: "a", then ",b" (the commas are no delimiters now), "c" -/
+example : tokHistory [[44#8], [59#8], [59#8], [59#8]] [97#8, 44#8, 44#8, 98#8, 59#8, 99#8] =
+    [some 0, some 2, some 5, none] := by decide
+/-- the model on the same history (string at 8, "," at 32, ";" at 40): same pointers, and the
+hypotheses of `strtok_r_history` hold for this memory -/
+example : (strtokCalls (ofBufs [(8, [97#8, 44#8, 44#8, 98#8, 59#8, 99#8, 0#8]), (32, [44#8, 0#8]), (40, [59#8, 0#8])])
+    20 [32, 40, 40, 40] (some 8) none).map (·.2.2) = some [some 8, some 10, some 13, none] := by decide
+
+/-- strndup: allocation failure ⇒ NULL, memory untouched (audit item 5) -/
+theorem strndup_nomem (malloc : Alloc) (m : Mem) (s : Nat) (p : List Byte) (size : Nat)
+    (h : Holds m s p) (h0 : 0#8 ∉ p) (hsz : size = p.length ∨ (p.length < size ∧ m (s + p.length) = some 0#8))
+    (hal : malloc m (p.length + 1) = none) :
+    strndup malloc m s size = some (m, none) := by
+  have e1 : strnlen m s size = some p.length := by
+    rcases hsz with rfl | ⟨hlt, hz⟩
+    · simpa [strnlen] using strnlenLoop_long m p s p.length 0 h h0 (Nat.le_refl _)
+    · have hc : CStr m s p := by
+        refine ⟨?_, h0⟩
+        rw [holds_append]; exact ⟨h, by simp [holds_cons, Holds.nil, hz]⟩
+      have := strnlenLoop_cstr m p s size 0 hc
+      simpa [strnlen, Nat.min_eq_left (Nat.le_of_lt hlt)] using this
+  simp [strndup, e1, hal]
+
 /-! ### ctype (round 3): igris/util/ctype.h and the libc wrappers of compat/libc/include/ctype.h
   For EVERY argument ISO C 7.4 allows (EOF and the 256 values of `unsigned char`:
   `ctypeArg i`, `i : Fin 257`) each classification function is non-zero exactly
